@@ -220,8 +220,9 @@ class NameSanitizer:
         # If it starts with a digit, prefix with underscore
         if name and name[0].isdigit():
             name = "_" + name
-        # Avoid Python keywords and reserved names
-        if keyword.iskeyword(name) or name in NameSanitizer.RESERVED_NAMES:
+        # Avoid Python keywords and reserved names ("self" would collide with the receiver of
+        # generated methods and dataclass constructors)
+        if keyword.iskeyword(name) or name in NameSanitizer.RESERVED_NAMES or name == "self":
             name += "_"
         return name
 
